@@ -20,24 +20,28 @@ LEVEL_TEXT = ('static analysis: (D1) expect_flat_log2 and shift_sex_chroms, comp
               'autosomes, -1 on Y, -1 on X iff the reference is male, PAR-X 0 with a PAR genome, PAR-Y -1 for a female reference, stored by '
               'do_reference_flat to log2 with depth = 2^log2 on target and antitarget bins alike; (D3) in load_sample_block every sample after '
               'the first reaches the matrix only through a test of (chromosome, start, end, gene) that raises on any difference -- also a one-'
-              'base difference at 150 Mb; (D4) row 0 of the matrix is the flat pseudo-sample, every other row bias_correct_logr(sample) = centre,'
-              ' shift sex chromosomes, then corrections; files are processed in sorted(key=fbase) order; (D5) log2 <- biweight_location over '
-              'samples, spread <- biweight_midvariance(initial = that location), depth <- biweight_location of depths, and combine_probes '
-              '(interpreted with the block loader stubbed) stacks target and antitarget bins, log2 matrix and depth matrix in one order and '
-              'summarises them once onto the bins; (D6) calculate_gc_lo = ((g+c+G+C)/(a+c+g+t+A+C+G+T), (a+c+g+t)/(same)) as exact rational '
-              'identities over eight count symbols, (0, 0) for no unambiguous base; get_fasta_stats interpreted on a literal two-sequence genome '
-              "(chr2, chr10) returns each bin's own [start:end) fractions in bin order, gc first; (D7) the positional correction / sex / PAR "
-              'flags reach same-role parameters, targets get (skip_low, gc, edge, no rmask), antitargets (no skip_low, gc, no edge, rmask); (D8) '
-              'the masks, flat profile and covariates computed once per pool are not mutated by the per-sample functions (effects fix-point); '
-              '(D10) every sample is centred by center_all on its covered autosomal bins (C15-D1 rule); (D9) do_reference hands combine_probes '
-              'the given sex for every sample, or the inferred one: the antitarget call where there is one, else the target call (a sample '
-              'callable only from antitargets keeps its call). (D11) the `reference` command line, through a model of argparse built from the '
-              'declarations in commands.py: for every accepted spelling of -x / --sample-sex (and none), x -y, x the correction switches, '
-              '_cmd_reference hands do_reference that sex, reference sex, PAR genome, switches and the target / antitarget files; (C19-D6) '
-              'biweight_location and biweight_midvariance, interpreted on 11 literal vectors with exact rationals, equal an independent '
-              "transcription of Tukey's formulas (majority-tied data included). (D12) no draw in fix / reference comes from a generator object "
-              "that outlives the call. (LABELS) the names under which the X / Y bins are found follow the table's own naming style, whichever sex"
-              ' chromosomes it has (C15 rule). Does not decide behaviour with corrections on, or sex inference accuracy.')
+              'base difference at 150 Mb; (D4, interpreted end to end through load_sample_block with recording stubs at center_all / '
+              'shift_sex_chroms / fix.center_by_window, 88 cells incl. a genome sequence and a mostly-empty pool) row 0 of the matrix is the flat'
+              " pseudo-sample, every other row the sample's corrected log2 = centre, shift sex chromosomes, then corrections; files are processed"
+              ' in sorted(key=fbase) order; (D5) log2 <- biweight_location over samples, spread <- biweight_midvariance(initial = that location),'
+              ' depth <- biweight_location of depths, and combine_probes (interpreted with the block loader stubbed) stacks target and antitarget'
+              ' bins, log2 matrix and depth matrix in one order and summarises them once onto the bins; (D6) calculate_gc_lo = '
+              '((g+c+G+C)/(a+c+g+t+A+C+G+T), (a+c+g+t)/(same)) as exact rational identities over eight count symbols, (0, 0) for no unambiguous '
+              "base; get_fasta_stats interpreted on a literal two-sequence genome (chr2, chr10) returns each bin's own [start:end) fractions in "
+              'bin order, gc first; (D7) the positional correction / sex / PAR flags reach same-role parameters, targets get (skip_low, gc, edge,'
+              ' no rmask), antitargets (no skip_low, gc, no edge, rmask); (D8) the masks, flat profile and covariates computed once per pool are '
+              'not mutated by the per-sample functions (effects fix-point); (D10) every sample is centred by center_all on its covered autosomal '
+              'bins (C15-D1 rule); (D9) do_reference hands combine_probes the given sex for every sample, or the inferred one: the antitarget '
+              'call where there is one, else the target call (a sample callable only from antitargets keeps its call). (D11) the `reference` '
+              'command line, through a model of argparse built from the declarations in commands.py: for every accepted spelling of -x / '
+              '--sample-sex (and none), x -y, x the correction switches, _cmd_reference hands do_reference that sex, reference sex, PAR genome, '
+              'switches and the target / antitarget files; (C19-D6) biweight_location and biweight_midvariance, interpreted on 11 literal vectors'
+              " with exact rationals, equal an independent transcription of Tukey's formulas (majority-tied data included). (D12) no draw in fix "
+              '/ reference comes from a generator object that outlives the call. (LABELS) the names under which the X / Y bins are found follow '
+              "the table's own naming style, whichever sex chromosomes it has (C15 rule). (D13) fbase on 13 literal file names: directory and .gz"
+              ' dropped, a known coverage / pipeline suffix dropped whole, otherwise the last extension only -- pool.A.cnn and pool.B.cnn keep '
+              'different sample ids. (D8) takes every parameter but the first of every function under load_sample_block as pool-shared state that'
+              ' must not be mutated. Does not decide behaviour with corrections on, or sex inference accuracy.')
 TECHNIQUE = ('abstract interpretation over chromosome classes x sex flags (symbolic noise terms); dominance; exact rational identities; role-'
              'flow; effect summaries; argparse model for the command-line glue; exact evaluation of the estimators against formula '
              'transcriptions')
